@@ -24,7 +24,7 @@ def check(ctx):
         v = json.load(open(ctx.replay))
         ps = [dict(v["input"]["program"], features=[], ast=None)]
     else:
-        n = 1200 if ctx.thorough else 260
+        n = 3600 if ctx.thorough else 260
         ps = progs.gen_programs(ctx, n)
         corpus = [
             'res / on get -> <{}> `examples: { a: "a.json", b: "b.json", c: "c.json", d: "d.json", e: "e.json" }`;\n',
@@ -39,7 +39,7 @@ def check(ctx):
     if not ctx.replay:
         # C06_evaluation_has_one_result is a theorem about Model/Eval.v: the evaluator tie (and its stratification hypothesis)
         from . import evaltie
-        evaltie.run(ctx, ps[: (500 if ctx.thorough else 100)])
+        evaltie.run(ctx, ps[: (1500 if ctx.thorough else 100)])
     # run A: each program three times in process, programs interleaved in one process per shard
     a = progs.compile_many([dict(p, repeat=3) for p in ps])
     # run B..: fresh processes, different shard composition (reversed order => different history)
@@ -52,7 +52,7 @@ def check(ctx):
             back[i] = res[pos]
         runs.append(back)
     # a handful of programs alone in brand-new processes
-    solo_idx = list(range(0, len(ps), max(1, len(ps) // (60 if ctx.thorough else 24))))
+    solo_idx = list(range(0, len(ps), max(1, len(ps) // (180 if ctx.thorough else 24))))
     solos = {i: progs.compile_many([ps[i]])[0] for i in solo_idx}
     seen = set()
     for i, p in enumerate(ps):
